@@ -168,12 +168,26 @@ def run_case(arch, case, wd):
     return out
 
 
+def prefix_absent(names):
+    for n in names:
+        last = n.rsplit("/", 1)[-1]
+        if len(last) >= 3:
+            cand = n[: len(n) - len(last) + len(last) // 2]
+            if cand not in names and not cand.endswith("/"):
+                return cand
+    return ABSENT + "2"
+
+
 def all_cases(arch):
     names = [m["name"] for m in arch["members"]]
     for r in range(len(names) + 1):
         for sub in itertools.combinations(names, r):
-            for absent in (False, True):
-                t = list(sub) + ([ABSENT] if absent else [])
+            # absent names: none / one unrelated to every member / one that is a proper string prefix of a member name
+            # (cut inside a component: "names in T that are not in the archive are ignored" - also by the recursive match)
+            for absent in (None, ABSENT, prefix_absent(names)):
+                if absent is not None and absent in names:
+                    continue
+                t = list(sub) + ([absent] if absent else [])
                 for as_set in (False, True):
                     for slash in (False, True):
                         for recursive in (False, True):
@@ -237,7 +251,7 @@ def main(tier="quick", seed=0, only=None):
         rule=(
             f"{len(archs)} archives (quick 6, thorough 9: directory entries stored after all files, as 7-Zip writes them; data at PackPos 11 with a file-less folder, dummy padding and folder-level CRCs; two solid folders behind BCJ+LZMA and PPMd; AES folders with an AES header; four single-file folders; a py7zr-written tree with an empty directory and a zero-length file plus an appended folder; reference-written solid LZMA2 folder with 7 entries incl. 2 directories, an empty file and nested files; the same "
             "entries in 3 folders COPY/LZMA2/BZIP2 with interleaved directories and an LZMA-encoded header; py7zr-written 3 append sessions "
-            "COPY/LZMA2/COPY) x ALL 2^n subsets of member names x with/without an absent name x list/set x trailing slash on/off x "
+            "COPY/LZMA2/COPY) x ALL 2^n subsets of member names x without / with an unrelated absent name / with an absent name that is a string prefix of a member name x list/set x trailing slash on/off x "
             "recursive False/True x factory/directory sink x opened by stream (sequential) / path (thread-parallel); thorough: also "
             "with targets in reverse order. Oracle: delivered = named members (+ everything beneath named directory members when "
             "recursive), bytes identical to the members, nothing else created but needed parents. Non-trivial = a proper non-empty subset "
